@@ -188,11 +188,14 @@ def handle (line : String) : String :=
   | ["SM", h, ph] =>
     match parse (unhex h) with
     | .err _ => "err"
-    | .ok t => if (specRe t).matchB drvSem (unhex ph) then "1" else "0"
+    -- membership is decided by the backtracking executor, which `exec_isSome_eq_matchB` proves equal to the
+    -- verified matcher `matchB` (and `matchB_iff` to `Matches`) for every pattern; it is the faster of the two on
+    -- nested repetitions
+    | .ok t => if ((specRe t).exec drvSem (unhex ph)).isSome then "1" else "0"
   | ["MM", h, ph] =>
     match parse (unhex h) with
     | .err _ => "err"
-    | .ok t => if (encodeTop t).matchB drvSem (unhex ph) then "1" else "0"
+    | .ok t => if ((encodeTop t).exec drvSem (unhex ph)).isSome then "1" else "0"
   | "A" :: _ :: hs => anyCmd "A" hs
   | "AN" :: _ :: hs => anyCmd "AN" hs
   | "FA" :: _ :: hs => anyCmd "FA" hs
